@@ -85,6 +85,15 @@ def h1(prog: Program, chk: Check) -> None:
     du = DefUse(u, CFG(u.node, exc_edges=False))
     chk.saw(u, du.cfg)
 
+    # the step variable: what the callables `propagators` / `dprop_dparam` are called with
+    step_vars = {c.args[0].id for c in walk_local(u.node) if isinstance(c, ast.Call)
+                 and dotted(c.func) in ("propagators", "dprop_dparam") and c.args
+                 and isinstance(c.args[0], ast.Name)}
+    if len(step_vars) != 1:
+        raise AnalysisError("H1: _chain_rule no longer evaluates propagators and their "
+                            "derivatives at one step variable")
+    step_var = next(iter(step_vars))
+
     def origin(nid: int, e: ast.AST) -> Optional[Tuple[str, int]]:
         """('prop'|'deriv', tuple position) of a half-step object."""
         while isinstance(e, ast.Attribute) and e.attr == "T":
@@ -101,7 +110,7 @@ def h1(prog: Program, chk: Check) -> None:
         idx = [s_[1] for s_ in ds[0].sel if s_[0] == "idx"]
         if kind is None or len(idx) != 1:
             return None
-        if norm(ds[0].value.args[0]) != "i":
+        if norm(ds[0].value.args[0]) != step_var:
             return None
         return kind, idx[0]
     stores = []
@@ -116,7 +125,7 @@ def h1(prog: Program, chk: Check) -> None:
         row = t.value.slice if isinstance(t.value, ast.Subscript) else t.slice
 
         def leaf(x):
-            if isinstance(x, ast.Name) and x.id == "i":
+            if isinstance(x, ast.Name) and x.id == step_var:
                 return I
             return None
         f = eval_form(row, leaf)
@@ -126,7 +135,7 @@ def h1(prog: Program, chk: Check) -> None:
         elif f == Poly.const(2) * I + Poly.const(1):
             half = 1
         c = n.ast.value
-        adj_ok = norm(c.args[0]) == "adjoint_tensor[i]"
+        adj_ok = norm(c.args[0]) == f"adjoint_tensor[{step_var}]"
         pre, post = origin(n.id, c.args[1]), origin(n.id, c.args[2])
         if half is None or pre is None or post is None:
             chk.add("H1", u, f"{norm(t)} = combine_derivs(...)", False,
@@ -250,6 +259,8 @@ def h2_h3(prog: Program, chk: Check) -> None:
     chk.saw(u, g)
     ev = c18.stepper_events(prog, u, du)
     cut, back = c18.split_forward_backward(g)
+    from rules.c02 import _callable_kind
+    nested_fns = {x.name: x for x in u.node.body if isinstance(x, ast.FunctionDef)}
     fwd = {n: k for n, k in ev.items() if n not in back}
     bwd = {n: k for n, k in ev.items() if n in back}
     # ---- forward env order
@@ -327,25 +338,38 @@ def h2_h3(prog: Program, chk: Check) -> None:
     for n in body:
         for c in g.nodes[n].calls():
             fn = call_name(c)
-            if fn in ("propagators", "controls"):
+            if _callable_kind(du, n, c.func, nested_fns) in ("propagators", "controls") and c.args:
                 idx.add(norm(c.args[0]))
             if fn == "_get_pt_mpos_backprop":
                 idx.add(norm(c.args[1]))
-    chk.add("H2", u, f"backward step uses one step index {sorted(idx)}", idx == {"step"},
-            "" if idx == {"step"} else "controls, propagators and MPOs of a backward step are "
-                                       "taken from different steps")
+    # ... and that index is the backward loop's own step variable
+    tgt = loop_nodes[0].ast.target
+    loop_names = {y.id for y in ast.walk(tgt) if isinstance(y, ast.Name)}
+    one = len(idx) == 1 and next(iter(idx)) in loop_names
+    chk.add("H2", u, f"backward step uses one step index {sorted(idx)}", one,
+            "" if one else "controls, propagators and MPOs of a backward step are "
+                           "taken from different steps")
     # bond legs joined through tracked edges when the environment order is reversed
+    def made_by(name: str, at: int, callees, pos: int) -> bool:
+        """every definition of `name` reaching `at` is tuple position `pos` of a call of one
+        of `callees`."""
+        ds = [d for d in du.reaching(at, name) if d.value is not None]
+        return bool(ds) and all(isinstance(d.value, ast.Call) and call_name(d.value) in callees
+                                and d.sel == (("idx", pos),) for d in ds)
     joins = []
     for n in body:
         for x in g.nodes[n].walk():
             if isinstance(x, ast.BinOp) and isinstance(x.op, ast.BitXor) and \
-                    norm(x.left).startswith("fwd_edges["):
-                joins.append(x)
+                    isinstance(x.left, ast.Subscript) and isinstance(x.left.value, ast.Name) and \
+                    made_by(x.left.value.id, n, ("_apply_derivative_pt_mpos",), 1):
+                joins.append((n, x))
     if not joins:
         raise AnalysisError("H2: the join of forward and backward tensors was not found")
-    for j in joins:
-        r = norm(j.right)
-        logical = "current_edges[" in r
+    for (jn, j) in joins:
+        # matched through the edge list that the backward applications keep up to date
+        logical = any(isinstance(y, ast.Name) and made_by(
+            y.id, jn, ("_apply_pt_mpos", "_apply_system_superoperator"), 1)
+            for y in ast.walk(j.right))
         ok = logical or dir_b == "asc"
         chk.add("H2", u, f"join {norm(j)}", ok,
                 "bond legs matched through the tracked edge list" if logical else
@@ -355,10 +379,28 @@ def h2_h3(prog: Program, chk: Check) -> None:
                  "backward node is permuted; matching by position joins the wrong bond legs"),
                 j)
     # ---- H3
+    # the two lists the backward pass reads: MPOs (first argument of _get_pt_mpos_backprop)
+    # and forward tensors (what the first argument of _apply_derivative_pt_mpos is taken from)
+    mpo_names = {c.args[0].id for n in g.nodes for c in n.calls()
+                 if call_name(c) == "_get_pt_mpos_backprop" and c.args
+                 and isinstance(c.args[0], ast.Name)}
+    fwd_names = set()
+    for n in g.nodes:
+        for c in n.calls():
+            if call_name(c) == "_apply_derivative_pt_mpos" and c.args \
+                    and isinstance(c.args[0], ast.Name):
+                for d in du.reaching(n.id, c.args[0].id):
+                    if d.value is not None and isinstance(d.value, ast.Subscript) \
+                            and isinstance(d.value.value, ast.Name):
+                        fwd_names.add(d.value.value.id)
+    if len(mpo_names) != 1 or len(fwd_names) != 1:
+        raise AnalysisError("H3: the stored forward tensors / MPOs read by the backward pass "
+                            "were not identified")
+    mpo_list, fwd_list = next(iter(mpo_names)), next(iter(fwd_names))
     stores = [n for n in g.nodes if n.id not in back and any(
-        method_call(c) == ("forwardprop_derivs_list", "append") for c in n.calls())]
+        method_call(c) == (fwd_list, "append") for c in n.calls())]
     mstores = [n for n in g.nodes if n.id not in back and any(
-        method_call(c) == ("mpo_list", "append") for c in n.calls())]
+        method_call(c) == (mpo_list, "append") for c in n.calls())]
     if len(stores) != 1 or len(mstores) != 1:
         raise AnalysisError("H3: forward tensor / MPO stores not found")
     s = stores[0].id
@@ -373,9 +415,13 @@ def h2_h3(prog: Program, chk: Check) -> None:
             "the stored forward tensor does not correspond to the state the half-step "
             "propagators act on", g.nodes[s].ast)
     m = mstores[0]
-    same = any(norm(c.args[0]) == "pt_mpos" for c in m.calls()) and \
-        {d.id for d in du.reaching(m.id, "pt_mpos")} == \
-        {d.id for d in du.reaching(env_f[0], "pt_mpos")}
+    stored = [c.args[0].id for c in m.calls() if method_call(c) == (mpo_list, "append")
+              and c.args and isinstance(c.args[0], ast.Name)]
+    applied = [c.args[2].id for c in g.nodes[env_f[0]].calls() if call_name(c) == "_apply_pt_mpos"
+               and len(c.args) > 2 and isinstance(c.args[2], ast.Name)]
+    same = len(stored) == 1 and stored == applied and \
+        {d.id for d in du.reaching(m.id, stored[0])} == \
+        {d.id for d in du.reaching(env_f[0], stored[0])}
     chk.add("H3", u, "MPOs stored for the backward pass are those applied in the forward step",
             same, "" if same else "stored and applied MPOs differ", m.ast)
 
@@ -472,10 +518,13 @@ def h4(prog: Program, chk: Check) -> None:
                 if isinstance(st, ast.Assign) and len(st.targets) == 1 \
                         and isinstance(st.targets[0], ast.Name):
                     env[st.targets[0].id] = st.value
-            for name in ("first_step", "second_step"):
-                if name in env:
-                    r = _halfstep_form(_subst(env[name], env), {})
-                    fwd.append((name, r[1] if r else None))
+            # the closure returns (first half, second half)
+            rets = [r for r in walk_local(nu.node) if isinstance(r, ast.Return)
+                    and isinstance(r.value, ast.Tuple) and len(r.value.elts) == 2]
+            for r_ in rets:
+                for pos, e in zip(("first half", "second half"), r_.value.elts):
+                    r = _halfstep_form(_subst(e, env), {})
+                    fwd.append((pos, r[1] if r else None))
     forms = {repr(f) for _, f in fwd}
     if len(fwd) != 2 or len(forms) != 1 or None in [f for _, f in fwd]:
         raise AnalysisError(f"H4: forward half-step propagators not readable: {fwd}")
